@@ -8,7 +8,27 @@ KERNEL_NOTE = ('real instead of float arithmetic; decimal literals within 5e-14;
                'scipy coo/csr duplicate-summing and make_symmetric mirroring assumed (A4); the .pyx -> ast extraction (A5); the prebuilt '
                '.so cannot be rebuilt here (no Cython) so the verdict is about the source tree, binary replays are attached where they reproduce')
 
+EIG_NOTE = ('the contracts of scipy eigsh/eigs/eigh/eig and of sparse.remove_null_cols are ASSUMED (stated in cmverif/eigctx.py): eigenpairs of the pair '
+            'they are given, in the requested count, 0<k<n required, numerical failure possible while null columns are present; solver precision, ARPACK '
+            'ordering, positivity/ascending order of computed values and sparse/dense agreement are not decidable by contracts and are not claimed')
+
 CHECKS = {
+ 'C05': dict(
+    category='proof',
+    text=('analysis.lb and Panel.lb are executed symbolically over abstract arrays with symbolic sizes (size, number of non-null columns, requested count): '
+          'every array operation that numpy rejects for incompatible shapes forks the path, so exception freedom is a z3 (LIA) obligation for all sizes; '
+          'on every returning path the matrices handed to the solver (KG as operator, K as metric, restricted to the non-null columns of K after the '
+          'fall-back), the solver keywords, the back-transform lambda=-1/mu (with the lemma (K+lambda KG)v=0), the scatter of the modes into the rows of '
+          'the non-null columns (zeros elsewhere) and the argument pass-through of Panel.lb to calc_k0/calc_kG0 are checked.'),
+    design_ref='DESIGN.md section 4 (C05/C06)', note=EIG_NOTE + '; ConeCyl.lb not yet under contract; 5 known findings, 1 fixed defect',
+    technique='contracts + symbolic execution with abstract shapes; z3 (LIA) shape obligations; assumed solver contracts'),
+ 'C06': dict(
+    category='proof',
+    text=('analysis.freq executed symbolically over abstract arrays for both solver switches, sort on/off, reduced_dof on/off: exception freedom for all sizes, '
+          'operators/keywords handed to eigs/eig, the transforms sqrt(w) / sqrt(-1/nu) (with the lemma K v = omega^2 M v), and the pairing obligation that '
+          'values and modes go through the same sort permutation and >1e-6 filter.'),
+    design_ref='DESIGN.md section 4 (C05/C06)', note=EIG_NOTE + '; Panel.freq not yet under contract; 10 known findings, 1 fixed defect',
+    technique='contracts + symbolic execution with abstract shapes; z3 (LIA) shape obligations; assumed solver contracts'),
  'C09': dict(
     category='proof',
     text=('_solver_NR is executed symbolically from the real source with uninterpreted user callables; the load-step, iteration and bisection loops '
